@@ -25,7 +25,10 @@ EXTENDS ObsCore
 NameCutFirst(stem, sep) == StrCat(StrCat(StrBefore(stem, sep), "|"), StrSub(stem, StrLen(StrBefore(stem, sep)) + 1, StrLen(stem)))
 \* Hadrons files carry no ensemble name: the caller states it
 HadronsFmts == {"hd5", "hd5mat", "hd5dist"}
-RepName(fmt, stem, par) == IF fmt \in HadronsFmts THEN par.ens_id ELSE NameCutFirst(stem, "r")
+\* sfcf with the ens_name keyword: the stated ensemble name in front of the replica part of the stem
+RepName(fmt, stem, par) == IF fmt \in HadronsFmts THEN par.ens_id
+                           ELSE IF "ens_name" \in DOMAIN par THEN StrCat(StrCat(par.ens_name, "|"), StrSub(stem, StrLen(StrBefore(stem, "r")) + 1, StrLen(stem)))
+                           ELSE NameCutFirst(stem, "r")
 
 \* ---- configuration numbers ----------------------------------------------------------------------------------
 Stored(rep) == [i \in DOMAIN rep.recs |-> rep.recs[i].cfg]
@@ -132,9 +135,9 @@ WhyNotMatch(o, exp, rtol) ==
 \* ---- the flow scale: root of the local linear fit (fit_t0) ------------------------------------------------------
 \* flow times x[1..n] (increasing), central values y, errors dy of t^2 E(t) - target (rising through zero);
 \* zc = number of points before the first positive one; the fit window holds `fr` points on either side of the crossing,
-\* cut off at the end of the data; the weighted straight line n + m x through the window has its root at -n / m
+\* cut off at either end of the data; the weighted straight line n + m x through the window has its root at -n / m
 ZeroCrossing(y) == Min({i \in DOMAIN y : RLt("0", y[i])}) - 1
-T0Window(n, zc, fr) == (zc - fr + 1)..(IF zc + fr < n THEN zc + fr ELSE n)
+T0Window(n, zc, fr) == (IF zc - fr + 1 > 1 THEN zc - fr + 1 ELSE 1)..(IF zc + fr < n THEN zc + fr ELSE n)
 LinFitRoot(x, y, dy, win) ==
   LET w == [i \in win |-> RDiv("1", RSq(dy[i]))]
       S(f(_)) == LET seq == SetToSortSeq(win, <) IN RSumSeq([k \in DOMAIN seq |-> RMul(w[seq[k]], f(seq[k]))])
